@@ -6,6 +6,7 @@ import json, os, shutil, sys, glob
 out, results = sys.argv[1], json.load(open(sys.argv[2]))
 for key, r in sorted(results.items()):
     prop, n = key.split("-")
+    n = str(r.get("src_n", n))
     src = os.path.join(out, prop)
     dst = os.path.join("/verif/seeded", key)
     os.makedirs(dst, exist_ok=True)
